@@ -115,7 +115,7 @@ def protocol_traces(chk):
 
 
 # ----------------------------------------------------------------- (c) observation events
-FAMILY = {'Periodogram': 'unchanged', 'pcorrelogram': 'unchanged', 'MultiTapering': 'unchanged',
+FAMILY = {'pburg:AIC': 'divides', 'Periodogram': 'unchanged', 'pcorrelogram': 'unchanged', 'MultiTapering': 'unchanged',
           'pmusic': 'unchanged', 'pev': 'unchanged',
           'pburg': 'divides', 'pyule': 'divides', 'pcovar': 'divides', 'pmodcovar': 'divides',
           'parma': 'divides', 'pma': 'divides', 'pminvar': 'multiplies'}
@@ -128,6 +128,8 @@ def build(name, x, nfft, sampling, scale):
         return sp.Periodogram(x, **kw)
     if name == 'pcorrelogram':
         return sp.pcorrelogram(x, lag=10, **kw)
+    if name == 'pburg:AIC':
+        return sp.pburg(x, 12, criteria='AIC', **kw)       # order selected by a criterion (usually below 12)
     if name in ('pburg', 'pyule', 'pcovar', 'pmodcovar', 'pminvar'):
         return getattr(sp, name)(x, 4, **kw)
     if name == 'parma':
